@@ -124,7 +124,7 @@ func ruleNoGetBody(c *Ctx, p *Prog, rule string) {
 func ruleDecodedPointersChecked(c *Ctx, p *Prog, rule string, pkgs ...string) {
 	n := 0
 	for _, pk := range pkgs {
-		for _, fn := range p.FuncsIn(pk) {
+		for _, fn := range p.AllFuncsIn(pk) {
 			EachInstrRaw(fn, func(i ssa.Instruction) {
 				if !IsCall(i, "encoding/json.Unmarshal", "(*encoding/json.Decoder).Decode") {
 					return
@@ -214,9 +214,11 @@ func ruleNoCloseUnderOtherSenders(c *Ctx, p *Prog, rule string, pkgs ...string) 
 				continue
 			}
 			var chans []*ssa.MakeChan
+			seenMk := map[*ssa.MakeChan]bool{}
 			for _, f := range WithClosures(fn) {
-				EachInstrRaw(f, func(i ssa.Instruction) {
-					if mc, ok := i.(*ssa.MakeChan); ok {
+				EachInstr(f, func(i ssa.Instruction) {
+					if mc, ok := i.(*ssa.MakeChan); ok && !seenMk[mc] {
+						seenMk[mc] = true
 						chans = append(chans, mc)
 					}
 				})
@@ -364,7 +366,7 @@ func ruleSingleWebsocketWriter(c *Ctx, p *Prog, rule string) {
 	n := 0
 	bad := ""
 	for _, pk := range []string{"utils/tcpbridge/connection", "utils/tcpbridge/tcp-bridge-frontend", "utils/tcpbridge/tcp-bridge-backend"} {
-		for _, fn := range p.FuncsIn(pk) {
+		for _, fn := range p.AllFuncsIn(pk) {
 			EachInstrRaw(fn, func(i ssa.Instruction) {
 				if IsCall(i, writers...) {
 					n++
@@ -404,7 +406,7 @@ func ruleNoRawDescriptor(c *Ctx, p *Prog, rule string) {
 	n := 0
 	var hits []ssa.Instruction
 	for _, pk := range []string{"utils/tcpbridge/connection", "utils/tcpbridge/tcp-bridge-frontend", "utils/tcpbridge/tcp-bridge-backend"} {
-		for _, fn := range p.FuncsIn(pk) {
+		for _, fn := range p.AllFuncsIn(pk) {
 			EachInstrRaw(fn, func(i ssa.Instruction) {
 				cc := CallOf(i)
 				if cc == nil {
@@ -665,7 +667,7 @@ func ruleNoLockAcrossRPC(c *Ctx, p *Prog, rule string) {
 	ls := ComputeLocksets(p)
 	n := 0
 	bad := ""
-	for _, fn := range p.FuncsIn("agent/metrics") {
+	for _, fn := range p.AllFuncsIn("agent/metrics") {
 		EachInstrRaw(fn, func(i ssa.Instruction) {
 			cc := CallOf(i)
 			if cc == nil {
